@@ -133,8 +133,8 @@ func (t cacheTransport) Open(ld *LogData, rl *Realised) (*sunlight.Client, func(
 		n++
 	}
 	if err := warm.Err(); err != nil || n != rl.Size {
-		os.RemoveAll(dir)
-		return nil, nil, fmt.Errorf("warming the cache: %d of %d entries, %v", n, rl.Size, err)
+		// not this case's answer: recorded, and the case goes on with whatever the cache holds
+		rl.WarmFailed = fmt.Sprintf("warming the cache: %d of %d entries, %v", n, rl.Size, err)
 	}
 	h := &tamperingHandler{objs: ld.Objs, over: rl.Over, targets: map[string]bool{}}
 	for _, t := range rl.Targets {
